@@ -36,6 +36,13 @@ def sharedInit : List SharedErr :=
 /-- a fresh `Ombott()` -/
 def AppState.init : AppState := { slots := Slots.fresh, shared := sharedInit }
 
+/-- a fresh `Ombott(config)` whose configuration replaces `errors_map` (entries: class, status
+code, status line, body) -/
+def AppState.initWith (m : List (String × Nat × Str × Str)) : AppState :=
+  { slots := Slots.fresh,
+    shared := m.map fun (cls, code, line, body) =>
+      { cls := cls, resp := { code := code, line := line, headers := [], cookies := [] }, body := body, tb := [] } }
+
 /-- a request of a history: the WSGI-level description plus the class of the request error that
 reading the body in the handler raises (`none`: the body is fine / not read) -/
 structure HReq where
